@@ -309,7 +309,20 @@ def kani_counterexample(crate, harness, timeout=1800):
     cmd = ['cargo', 'kani', '-p', crate, '--harness', harness, '--output-format', 'terse',
            '-Z', 'concrete-playback', '--concrete-playback=print']
     rc, out, err, wall = _run(cmd, cwd=REPO, env=kani_env(), timeout=timeout)
-    m = re.search(r'let concrete_vals: Vec<Vec<u8>> = vec!\[(.*?)\n    \];', out, re.S)
+    # one generated test per failed check *and* per satisfied cover: take the
+    # first one that belongs to a failed (non-cover) check
+    blocks = re.split(r'(?=/// Test generated for harness)', out)
+    chosen = None
+    for b in blocks:
+        if 'let concrete_vals' not in b:
+            continue
+        if re.search(r'/// Check for `cover`', b):
+            continue
+        chosen = b
+        break
+    if chosen is None:
+        return None, out[-3000:]
+    m = re.search(r'let concrete_vals: Vec<Vec<u8>> = vec!\[(.*?)\n    \];', chosen, re.S)
     if not m:
         return None, out[-3000:]
     vals = []
@@ -325,10 +338,10 @@ def replay_native(crate, harness, replay_file, timeout=1800):
     env['CARGO_TARGET_DIR'] = os.path.join(CACHE, 'replay')
     env['VERIF_REPLAY'] = replay_file
     env['RUST_BACKTRACE'] = '0'
-    cmd = ['cargo', 'test', '--offline', '-p', crate, '--lib', 'verif_kani::proofs::' + harness, '--', '--exact',
+    cmd = ['cargo', 'test', '--offline', '-p', crate, '--lib', 'verif_kani::proofs::' + harness, '--',
            '--nocapture', '--test-threads', '1']
     rc, out, err, wall = _run(cmd, cwd=REPO, env=env, timeout=timeout)
-    ran = re.search(r'test verif_kani::proofs::%s \.\.\. (\w+)' % re.escape(harness), out + err)
+    ran = re.search(r'test (?:\w+::)*verif_kani::proofs::%s \.\.\. (\w+)' % re.escape(harness), out + err)
     m = re.search(r"panicked at ([^\n]*)\n([^\n]*)", out + err)
     return {
         'cmd': 'cd %s && RUSTFLAGS="--cfg libtw2_verif" VERIF_REPLAY=%s %s' % (REPO, replay_file, ' '.join(cmd)),
